@@ -155,6 +155,11 @@ def run(rep, facts, tier):
         check_compress_funnel(rep, cfg)
         check_sign(rep, cfg)
         isqrt_zero_cases(rep, cfg)
+        # "re-encoding a decoded string reproduces exactly those bytes" needs the decoder to accept canonical strings only
+        from . import c02
+        c02.canon_parse(rep, cfg)
+        if name == "A":
+            c02.from_bigint_rule(rep, cfg)
         from . import c17
         c17.curve_constants(rep, facts[name], name)     # "every element obtainable from constants": generator / identity are valid and = decode(8)
     if "A" in cfgs and "M" in cfgs and dec["A"] and dec["M"]:
